@@ -24,7 +24,7 @@ Module BinS.
   Definition wf_hdr (h : hdr) : Prop :=
     0 <= flags h <= 15 /\ (exists cps, Utf8.un_utf8 (label h) = Some cps) /\
     Z.of_nat (length (label h)) < 2 ^ 32 /\ (length (shape h) <= 255)%nat /\
-    Forall (fun d => 0 <= d < 2 ^ 32) (shape h).
+    Forall (fun d => 0 <= d < 2 ^ 32) (shape h) /\ nz_prod (shape h) <= 2 ^ 63.
   Definition wf_leaf (count : Z) (p : leaf) : Prop :=
     match p with
     | LNum d => Z.of_nat (length d) = count /\ Forall wfnum d
@@ -103,6 +103,18 @@ Module BinS.
       rewrite Z.mod_small by lia. rewrite Nat2Z.id. apply read_shape_ok. assumption.
     Qed.
 
+    Lemma zprod_zero : forall sh, existsb (Z.eqb 0) sh = true -> zprod sh = 0.
+    Proof.
+      induction sh; intros H; cbn [existsb] in H; [discriminate|]. unfold zprod. cbn [fold_right].
+      apply orb_true_iff in H. destruct H as [H|H]; [apply Z.eqb_eq in H; subst; reflexivity|].
+      fold (zprod sh). rewrite IHsh by assumption. lia.
+    Qed.
+    Lemma count_of_ok : forall sh, nz_prod sh <= 2 ^ 63 -> count_of sh = Some (zprod sh).
+    Proof.
+      intros sh H. unfold count_of. destruct (existsb (Z.eqb 0) sh) eqn:E; [|reflexivity].
+      rewrite zprod_zero by assumption. destruct (Z.ltb_spec (2 ^ 63) (nz_prod sh)); [lia | reflexivity].
+    Qed.
+
     (** the bytes write_ty_meta produces for a value without map keys *)
     Definition meta_bytes (code : Z) (h : hdr) : list Z :=
       if has_meta h None
@@ -125,7 +137,8 @@ Module BinS.
       obind (parse_payload ops rec code (dec_hdr h) (zprod (shape h)) tail)
             (fun '(v, rest) => finish v (dec_hdr h) None rest).
     Proof.
-      intros rec code h tail (Hfl & (cps & Hl) & Hll & Hr & Hd) Hc Hv.
+      intros rec code h tail (Hfl & (cps & Hl) & Hll & Hr & Hd & Hnz) Hc Hv.
+      pose proof (count_of_ok (shape h) Hnz) as Hco.
       unfold meta_bytes, dec_hdr. destruct (has_meta h None) eqn:Hm.
       - cbn [app parse_value].
         replace (128 <=? code + 128) with true by (symmetry; apply Z.leb_le; lia).
@@ -140,11 +153,11 @@ Module BinS.
         rewrite le_horner by (change (2 ^ (8 * Z.of_nat 4)) with (2 ^ 32); apply Z.mod_pos_bound; reflexivity).
         rewrite Z.mod_small by lia. rewrite <- app_assoc. rewrite takeZ_app. cbn [obind].
         rewrite Hl. cbn [app]. cbn [Z.eqb obind].
-        rewrite parse_shape_ok by assumption. cbn [obind]. reflexivity.
+        rewrite parse_shape_ok by assumption. cbn [obind shape]. rewrite Hco. reflexivity.
       - cbn [app parse_value].
         replace (128 <=? code) with false by (symmetry; apply Z.leb_gt; lia).
         rewrite Z.mod_small by lia. fold (valid_code code). rewrite Hv. cbn [negb parse_meta obind].
-        rewrite parse_shape_ok by assumption. cbn [obind].
+        rewrite parse_shape_ok by assumption. cbn [obind shape]. rewrite Hco. cbn [obind].
         (* without metadata the header fields are the defaults *)
         unfold has_meta in Hm. apply orb_false_iff in Hm. destruct Hm as [Ha Hm]. apply negb_false_iff in Hm.
         apply andb_true_iff in Hm. destruct Hm as [Hm _]. apply andb_true_iff in Hm. destruct Hm as [Hf0 Hl0].
@@ -296,7 +309,7 @@ Module BinS.
         destruct (parse_leaf (from_binary ops (MAX_DEPTH - d)) (dec_hdr h) (zprod (shape h)) p) with (rest := @nil Z) as (_ & _ & _ & Hv & Hc); [assumption|].
         cbn [to_binary height] in *.
         replace (Nat.ltb MAX_DEPTH d) with false by (symmetry; apply Nat.ltb_ge; lia).
-        assert (Hr : Nat.ltb 255 (length (shape h)) = false) by (apply Nat.ltb_ge; destruct Hh as (_ & _ & _ & Hr & _); assumption).
+        assert (Hr : Nat.ltb 255 (length (shape h)) = false) by (apply Nat.ltb_ge; destruct Hh as (_ & _ & _ & Hr & _ & _); assumption).
         rewrite Hr. destruct (write_leaf ops p) as [code payload] eqn:Ew. cbn [fst snd] in *.
         rewrite write_meta_none. cbn [obind].
         eexists. split; [reflexivity|]. split; [rewrite app_length; pose proof (meta_bytes_nonempty code h); lia|].
@@ -318,7 +331,7 @@ Module BinS.
            obind (write_meta BOX h None None) (fun m =>
            obind (enc_list (to_binary ops (S d)) l) (fun body => Some (m ++ write_shape (shape h) ++ body)))).
         replace (Nat.ltb MAX_DEPTH d) with false by (symmetry; apply Nat.ltb_ge; lia).
-        assert (Hr : Nat.ltb 255 (length (shape h)) = false) by (apply Nat.ltb_ge; destruct Hh as (_ & _ & _ & Hr & _); assumption).
+        assert (Hr : Nat.ltb 255 (length (shape h)) = false) by (apply Nat.ltb_ge; destruct Hh as (_ & _ & _ & Hr & _ & _); assumption).
         rewrite Hr, write_meta_none, Eb. cbn [obind].
         eexists. split; [reflexivity|]. split; [rewrite app_length; pose proof (meta_bytes_nonempty BOX h); lia|].
         intros rest. destruct (Db rest) as (l' & El & Ml).
